@@ -143,14 +143,14 @@ class C03Scenario(ChangeScenario):
 def histories(depth: int) -> list[list[tuple[str, ...]]]:
     """All action sequences after the initial create, with light pruning of meaningless ones."""
     alphabet: list[tuple[str, ...]] = [('spec', 'a', 2), ('spec', 'a', 1), ('label', 'a', 'l', 'v'), ('status', 'a', 7),
-                                       ('delete', 'a'), ('killrestart',), ('restart',), ('down-edit', 3)]
+                                       ('delete', 'a'), ('killrestart',), ('restart',), ('down-edit', 3), ('append', 'a'), ('down-append',)]
     out: list[list[tuple[str, ...]]] = []
     for d in range(0, depth + 1):
         for combo in itertools.product(alphabet, repeat=d):
             ok = True
             deleted = False
             for i, a in enumerate(combo):
-                if deleted and a[0] in ('spec', 'label', 'status', 'delete', 'down-edit'):
+                if deleted and a[0] in ('spec', 'label', 'status', 'delete', 'down-edit', 'append', 'down-append'):
                     ok = False
                     break
                 if a[0] == 'delete':
@@ -171,6 +171,10 @@ def build(history: list[tuple[str, ...]], spacing: float, hset: int, fails: int,
         if a[0] == 'down-edit':
             user.append((t, 'stop'))
             user.append((t + (spacing / 4 if spacing else 0), 'spec', 'a', a[1]))
+            user.append((t + (spacing / 2 if spacing else 0), 'start'))
+        elif a[0] == 'down-append':      # a list in the spec grows at its tail while the operator is down
+            user.append((t, 'stop'))
+            user.append((t + (spacing / 4 if spacing else 0), 'append', 'a'))
             user.append((t + (spacing / 2 if spacing else 0), 'start'))
         else:
             user.append((t, *a))
@@ -201,7 +205,7 @@ def scenarios(tier: str) -> tuple[list[C03Scenario], list[C03Scenario], list[C03
         for spacing in (20.0, 0.0):
             for hset, fails in ((1, 1), (2, 1)) if tier == 'quick' else ((1, 0), (1, 2), (2, 1), (2, 2)):
                 hist.append(build(h, spacing, hset, fails, delays=False, early_user=False, time_dev=False))
-            if any(a[0] in ('restart', 'killrestart', 'down-edit') for a in h):
+            if any(a[0] in ('restart', 'killrestart', 'down-edit', 'down-append') for a in h):
                 hist.append(build(h, spacing, 3, 1, delays=False, early_user=False, time_dev=False))
                 if len(h) <= 2 or tier != 'quick':
                     hist.append(build(h, spacing, 4, 0, delays=False, early_user=False, time_dev=False))
